@@ -548,3 +548,23 @@ package netceptor
 //@   requires c != nil && c.qc != nil
 //@   pure
 //@   ensures NONNIL: result != nil
+
+// ---- C17: helper goroutines cannot stay blocked once the object they serve is done.  Every operation at which one
+// of them can block waits (among others) on a channel that the end of the object closes: the context of the
+// socket or ping, or the subscription channel that the broker closes on unsubscribe / cancellation.
+
+//@ func (*PacketConn).StartUnreachable$1
+//@   tags C17
+//@   site block * EXITS: [C17] requires waits(ctxdone(pc.context))
+//@ func (*PacketConn).StartUnreachable$2
+//@   tags C17
+//@   site block * EXITS: [C17] requires waits(iChan)
+//@ func (*PacketConn).SubscribeUnreachable$1
+//@   tags C17
+//@   site block * EXITS: [C17] requires waits(ctxdone(pc.context))
+//@ func SendPing$2
+//@   tags C17
+//@   site block * EXITS: [C17] requires waits(unrCh) || waits(ctxdone(ctxPing))
+//@ func SendPing$3
+//@   tags C17
+//@   site block * EXITS: [C17] requires waits(ctxdone(ctxPing))
